@@ -5,6 +5,7 @@ CONSTANTS
   DVals = {"1", "2"}
   CVals = {"1", "2", ""}
   UVals = {"1"}
+  PrefixLen = 0
   MaxHosts = 2
   MaxSel = 2
   Defects = {"MissingKeyEmpty"}
